@@ -12,7 +12,9 @@ EXPLANATION = (
     'task contains a load of the command\'s aborted flag whose true edge clears and returns (abort is observed once per task, not once '
     'per pass); R06.d the closures passed to Request::resolves_once / resolves_many_times (and everything they call in crux_core) '
     'contain no unwrap/expect/panic!/indexing except lock-poisoning unwraps, so a late response cannot panic; R06.e both abort handles '
-    'store `true` with at least Release ordering into the flag the executor reads. Containment and finality at every injection point '
+    'store `true` with at least Release ordering into the flag the executor reads; R06.f a hosted command reports the end of its stream exactly '
+    'when is_done holds (tasks, effects, events empty), so an aborted command — whose tasks R06.b clears — is seen as finished by its host at every '
+    'nesting level. Containment and finality at every injection point '
     'are not decided.')
 
 ATOMIC_LOAD = ['core::sync::atomic::Atomic::load', 'core::sync::atomic::AtomicBool::load']
@@ -79,8 +81,10 @@ def check(ctx, rep):
     was = [(bb, t) for bb, t in rs.calls('crux_core::command::Command::was_aborted')]
     if not was:
         was = [(bb, t) for bb, t in rs.calls(*ATOMIC_LOAD) if 'aborted' in c01.field_of_receiver(rs, t['args'][0])]
-    runs = [bb for bb, t in rs.calls('crux_core::command::Command::run_task')]
-    clears = [bb for bb, t in rs.calls('slab::Slab::clear')]
+    from rules.common import Summaries
+    sm = Summaries([core])
+    runs = sm.sites(rs, ['crux_core::command::Command::run_task'], 'may')
+    clears = sm.sites(rs, ['slab::Slab::clear'], 'must')
     rets = rs.return_blocks()
     first = [w for w in was if all(rs.dominates(w[0], x[0]) for x in was)]
     ok_b = False
@@ -163,5 +167,8 @@ def check(ctx, rep):
                 shared = any(o.kind == 'call' and call_matches(o.term, ['core::clone::Clone::clone']) for o in origins(new, a))
         rep.expect('R06.e', shared, 'Command::new|shared-flag', 'the root task\'s aborted flag is a clone of the command\'s flag',
                    'Command::new: the root task no longer shares the command\'s aborted flag')
+    # R06.f: an aborted (cleared) command is reported as ended to its host: the stream end is decided by is_done alone (shared with C07 R07.e)
+    from rules.props import c07
+    c07.check_stream_end(rep, 'R06.f', core)
     rep.assume('dropping the hosting future drops the nested command (ownership; the linear rule of C01 shows it is not stashed elsewhere)')
     rep.assume('user futures are cancellation safe (documented requirement of abort)')
